@@ -760,6 +760,12 @@ def main():
     t0 = time.time()
     spec, hdir = load_spec(pid)
     obs = spec.obligations(a.tier)
+    # Solver budgets in the specs are ~2x the time measured on an idle 16-core machine.  A budget that runs out is an
+    # INCONCLUSIVE (exit 2), which on the unchanged tree would make the check useless, so the budgets are stretched for
+    # machines that are slower or busy with other checks; a query that finishes is unaffected.
+    tscale = float(os.environ.get("VERIF_TIMEOUT_SCALE", "3" if a.tier == "quick" else "1.5"))
+    for o in obs:
+        o["timeout"] = int(o.get("timeout", 120) * tscale)
     if a.only:
         want = set(a.only.split(","))
         obs = [o for o in obs if o["name"] in want]
